@@ -4,7 +4,7 @@
 from abc import abstractmethod, ABCMeta
 from dataclasses import dataclass, field
 import warnings
-from typing import List, Iterator, Optional, Dict
+from typing import List, Iterator, Optional, Dict, Tuple
 import numpy as np
 from tqdm import tqdm
 from qce_circuit.utilities.custom_exceptions import InterfaceMethodException
@@ -226,22 +226,7 @@ class CircuitCompositeOperation(ICircuitCompositeOperation):
     @property
     def duration(self) -> float:
         """:return: Duration [ns]."""
-        total_duration: float = 0.0
-        # Guard clause, if graph does not contain non-Head nodes, return zero total duration
-        if self.empty_composite:
-            return total_duration
-        # Calculate relative start time of internal operations
-        relative_start_time: float = +np.inf
-        for start_node in self._circuit_graph.get_nodes_at(depth=1):
-            start_time: float = start_node.operation.start_time
-            if start_time < relative_start_time:
-                relative_start_time = start_time
-        # Calculate internal duration of operation branch
-        for leaf_node in self._circuit_graph.leaf_nodes:
-            delta_time = leaf_node.operation.end_time - relative_start_time
-            if delta_time > total_duration:
-                total_duration = delta_time
-        return total_duration
+        return self._get_time_bounds()[1]
     # endregion
 
     # region Interface Methods
@@ -354,6 +339,33 @@ class CircuitCompositeOperation(ICircuitCompositeOperation):
         for i in range(times - 1):
             self.extend(other=original_self.copy())
         return self
+
+    def _get_time_bounds(self) -> Tuple[float, float]:
+        """
+        Evaluates all contained operations (not only relation heads and leafs).
+        :return: Tuple of (time between earliest contained start and head-operation start, total duration).
+        """
+        # Guard clause, if graph does not contain non-Head nodes, return zero total duration
+        if self.empty_composite:
+            return 0.0, 0.0
+        head_node_ids: List[int] = [id(node) for node in self._circuit_graph.get_nodes_at(depth=1)]
+        head_start_time: float = +np.inf
+        earliest_start_time: float = +np.inf
+        latest_end_time: float = -np.inf
+        for node in self._circuit_graph.get_node_iterator():
+            operation: ICircuitOperation = node.operation
+            # Nested composite operations are booked from their head operations, correct for earlier internal starts
+            early_offset: float = 0.0
+            if isinstance(operation, CircuitCompositeOperation):
+                early_offset, duration = operation._get_time_bounds()
+            else:
+                duration = operation.duration
+            start_time: float = operation.relation_link.get_start_time(duration=duration)
+            if id(node) in head_node_ids:
+                head_start_time = min(head_start_time, start_time)
+            earliest_start_time = min(earliest_start_time, start_time - early_offset)
+            latest_end_time = max(latest_end_time, start_time - early_offset + duration)
+        return head_start_time - earliest_start_time, latest_end_time - earliest_start_time
 
     def get_sub_composite_operations(self) -> List[ICircuitCompositeOperation]:
         """:return: Array-like of all operations that are of instance ICircuitCompositeOperation."""
